@@ -315,9 +315,9 @@ theorem C11_mutex_with_blocks (o : Bool) (s s' : St) (e : Ev) (h : ReachE o s) (
      (e = .stopCleaned ∧ s.lp = .off)) := by
   have hall := reachE_allGood h
   obtain ⟨st, sEnter, sp, kEnter, kDecided, kWait, kClean, lp, pp, abortClosed, nbClosed, wg, writing, res, opens, crashed,
-    fuel, flag, rEnter, rSend, rWait, runOver, stopsDone⟩ := s
-  obtain ⟨⟨h1, h2, h3, h4, h5, h6, h7, h8, h9, h10, h11, h12, h13, h14, h15⟩, ⟨e1, e2, e3, e4⟩, hw, hc⟩ := hall
-  dsimp only [stoppers, GoodW] at h1 h2 h3 h4 h5 h6 h7 h8 h9 h10 h11 h12 h13 h14 h15 e1 e2 e3 e4 hw hc
+    fuel, flag, rEnter, rSend, rWait, runOver, stopsDone, asm⟩ := s
+  obtain ⟨⟨h1, h2, h3, h4, h5, h6, h7, h8, h9, h10, h11, h12, h13, h14, h15, h16, h17, h18⟩, ⟨e1, e2, e3, e4⟩, hw, hc⟩ := hall
+  dsimp only [stoppers, GoodW] at h1 h2 h3 h4 h5 h6 h7 h8 h9 h10 h11 h12 h13 h14 h15 h16 h17 h18 e1 e2 e3 e4 hw hc
   cases e <;> lc_open hs
   all_goals ((try simp only [deactivate] at hch ⊢) <;> (try split at hch) <;>
     simp_all [LPc.alive, LPc.working, PPc.alive, SPc.inStarting, SPc.owner, SrcState.running] <;> (try omega) <;> (try grind))
@@ -347,12 +347,12 @@ theorem C11_no_wedge (o : Bool) (s : St) (h : ReachW o s) (hc : s.crashed = fals
     (callers s > 0 → ∃ e s', e.isEnv = false ∧ step s e = some s') := by
   obtain ⟨hg, hw⟩ := reachW_good h
   obtain ⟨st, sEnter, sp, kEnter, kDecided, kWait, kClean, lp, pp, abortClosed, nbClosed, wg, writing, res, opens, crashed,
-    fuel, flag, rEnter, rSend, rWait, runOver, stopsDone⟩ := s
-  obtain ⟨h1, h2, h3, h4, h5, h6, h7, h8, h9, h10, h11, h12, h13, h14, h15⟩ := hg
+    fuel, flag, rEnter, rSend, rWait, runOver, stopsDone, asm⟩ := s
+  obtain ⟨h1, h2, h3, h4, h5, h6, h7, h8, h9, h10, h11, h12, h13, h14, h15, h16, h17, h18⟩ := hg
   dsimp only [GoodW, callers] at *
   subst hc
   have ha : ∀ n, lp = .req (n + 1) → (step ⟨st, sEnter, sp, kEnter, kDecided, kWait, kClean, lp, pp, abortClosed, nbClosed, wg,
-      writing, res, opens, false, fuel, flag, rEnter, rSend, rWait, runOver, stopsDone⟩ .reply).isSome = true := by
+      writing, res, opens, false, fuel, flag, rEnter, rSend, rWait, runOver, stopsDone, asm⟩ .reply).isSome = true := by
     intro n hn
     subst hn
     have : rWait > 0 := by simp [pendingReplies] at hw; omega
@@ -366,7 +366,7 @@ theorem C11_no_wedge (o : Bool) (s : St) (h : ReachW o s) (hc : s.crashed = fals
       | succ m => exact ⟨m, rfl⟩
     | _ => simp [pendingReplies] at hw; omega
   have hcc : rSend > 0 → lp = .off → sp.owner ∨ (step ⟨st, sEnter, sp, kEnter, kDecided, kWait, kClean, lp, pp, abortClosed,
-      nbClosed, wg, writing, res, opens, false, fuel, flag, rEnter, rSend, rWait, runOver, stopsDone⟩
+      nbClosed, wg, writing, res, opens, false, fuel, flag, rEnter, rSend, rWait, runOver, stopsDone, asm⟩
       .rpcSourceGone).isSome = true := by
     intro hr hl
     subst hl
